@@ -318,3 +318,305 @@ Proof.
     + split; [apply b32_verify_compute; [apply bech32_const_small|apply hrp_ok33_chars, hrp_enc_ok_33; assumption|assumption]|].
       rewrite <- Lc, drop_last_app. apply from_to_base32; assumption.
 Qed.
+
+(* ------------------------------------------------------------------ SegWit *)
+Definition segwit_const (v : N) : N := if v =? segwit_ver_bech32 then bech32_const else bech32m_const.
+
+Lemma segwit_const_small v : segwit_const v < 2 ^ W32.
+Proof. unfold segwit_const. destruct (v =? segwit_ver_bech32); [apply bech32_const_small|apply bech32m_const_small]. Qed.
+
+Lemma segwit_verify_ok_iff hrp ints :
+  segwit_verify hrp ints = Ok true <->
+  exists v rest, ints = v :: rest /\ b32_verify_checksum (segwit_const v) hrp ints = true.
+Proof.
+  unfold segwit_verify, segwit_enc_const. destruct ints as [|v rest]; cbn [bind Ok].
+  - split; [discriminate|]. intros (v & r & E & _). discriminate.
+  - fold (segwit_const v). split.
+    + intros X. inversion X as [E]. exists v, rest. rewrite E. auto.
+    + intros (v' & r' & E & V). inversion E; subst. rewrite V. reflexivity.
+Qed.
+
+Lemma segwit_verify_total hrp d : d <> [] -> exists b, segwit_verify hrp d = Ok b.
+Proof. destruct d; [congruence|]. intros _. eexists. reflexivity. Qed.
+
+Lemma segwit_raw_ok_iff s hrp data :
+  segwit_decode_raw s = Ok (hrp, data) <->
+  is_string_mixed s = false /\ hrp_ok33 hrp /\
+  exists v rest, py_lower s = hrp ++ segwit_sep :: map bsym (v :: rest) /\ small32 (v :: rest) /\
+    (segwit_cklen <= length rest)%nat /\ b32_verify_checksum (segwit_const v) hrp (v :: rest) = true /\
+    data = v :: drop_last segwit_cklen rest.
+Proof.
+  unfold segwit_decode_raw, bech32_decode_base.
+  rewrite (decode_base_ok_iff bech32_charset _ _ segwit_sep segwit_cklen _ charset_nodup
+             (proj1 (proj2 (sep_stable segwit_sep (or_intror (or_introl eq_refl))))) b32_cklen_pos).
+  split.
+  - intros (M & Hh & ints & El & Hs & Hl & V & Hd). apply segwit_verify_ok_iff in V.
+    destruct V as (v & rest & -> & V). split; [exact M|]. split; [exact Hh|]. exists v, rest.
+    cbn [length] in Hl. repeat split; auto; [lia|]. rewrite Hd. apply drop_last_cons. lia.
+  - intros (M & Hh & v & rest & El & Hs & Hl & V & Hd). split; [exact M|]. split; [exact Hh|].
+    exists (v :: rest). repeat split; auto.
+    + cbn [length]. lia.
+    + apply segwit_verify_ok_iff. exists v, rest. auto.
+    + rewrite Hd. symmetry. apply drop_last_cons. assumption.
+Qed.
+
+Definition segwit_prog_ok (v : N) (prog : list N) : Prop :=
+  (segwit_prog_min <= length prog <= segwit_prog_max)%nat /\ v <= segwit_ver_max /\
+  (v = 0 -> In (length prog) segwit_v0_lens).
+
+Lemma existsb_eqb_In n l : existsb (Nat.eqb n) l = true <-> In n l.
+Proof.
+  rewrite existsb_exists. split.
+  - intros (x & Hx & E). apply Nat.eqb_eq in E. subst. assumption.
+  - intros H. exists n. split; [assumption|apply Nat.eqb_refl].
+Qed.
+
+Lemma segwit_rules_iff v prog :
+  ((length prog <? segwit_prog_min)%nat || (segwit_prog_max <? length prog)%nat = false /\
+   (segwit_ver_max <? v) = false /\
+   (v =? 0) && negb (existsb (Nat.eqb (length prog)) segwit_v0_lens) = false) <-> segwit_prog_ok v prog.
+Proof.
+  unfold segwit_prog_ok. rewrite orb_false_iff, !Nat.ltb_ge, N.ltb_ge, andb_false_iff, negb_false_iff, N.eqb_neq, existsb_eqb_In.
+  split.
+  - intros ((H1 & H2) & H3 & H4). repeat split; auto. intros ->. destruct H4; [congruence|assumption].
+  - intros ((H1 & H2) & H3 & H4). repeat split; auto. destruct (N.eq_dec v 0); [right; auto|left; assumption].
+Qed.
+
+Theorem segwit_decode_ok_iff hrp s v prog :
+  segwit_decode hrp s = Ok (v, prog) <->
+  is_string_mixed s = false /\ hrp_ok33 hrp /\
+  exists rest, py_lower s = hrp ++ segwit_sep :: map bsym (v :: rest) /\ small32 (v :: rest) /\
+    (segwit_cklen <= length rest)%nat /\ b32_verify_checksum (segwit_const v) hrp (v :: rest) = true /\
+    from_base32 5 8 (drop_last segwit_cklen rest) = Ok prog /\ segwit_prog_ok v prog.
+Proof.
+  unfold segwit_decode. split.
+  - destruct (segwit_decode_raw s) as [[h d]|] eqn:R; cbn [bind Ok fst snd]; [|discriminate].
+    destruct (list_eqb hrp h) eqn:E; cbn [negb]; [|discriminate]. apply list_eqb_spec in E. subst h.
+    apply segwit_raw_ok_iff in R. destruct R as (M & Hh & v' & rest & El & Hs & Hl & V & ->).
+    cbn [tl hd_error]. rewrite b32_from_base32_eq.
+    destruct (from_base32 5 8 (drop_last segwit_cklen rest)) as [conv|] eqn:F; cbn [bind Ok of_option]; [|discriminate].
+    destruct (_ || _) eqn:C1; [discriminate|]. destruct (segwit_ver_max <? v') eqn:C2; [discriminate|].
+    destruct (_ && _) eqn:C3; [discriminate|]. intros X. inversion X; subst.
+    split; [exact M|]. split; [exact Hh|]. exists rest.
+    split; [exact El|]. split; [exact Hs|]. split; [exact Hl|]. split; [exact V|]. split; [exact F|].
+    apply segwit_rules_iff. auto.
+  - intros (M & Hh & rest & El & Hs & Hl & V & F & Hp).
+    assert (R : segwit_decode_raw s = Ok (hrp, v :: drop_last segwit_cklen rest)).
+    { apply segwit_raw_ok_iff. split; [exact M|]. split; [exact Hh|]. exists v, rest. auto. }
+    rewrite R. cbn [bind Ok fst snd]. rewrite list_eqb_refl. cbn [negb tl hd_error].
+    rewrite b32_from_base32_eq, F. cbn [bind Ok of_option].
+    apply segwit_rules_iff in Hp. destruct Hp as (C1 & C2 & C3). rewrite C1, C2, C3. reflexivity.
+Qed.
+
+Theorem segwit_decode_err hrp s e :
+  segwit_decode hrp s = Err e -> e = ValueError \/ e = LibError Bech32ChecksumError.
+Proof.
+  unfold segwit_decode. destruct (segwit_decode_raw s) as [[h d]|e'] eqn:R; cbn [bind Ok fst snd].
+  - destruct (list_eqb hrp h); cbn [negb]; [|intros X; inversion X; auto].
+    apply segwit_raw_ok_iff in R. destruct R as (_ & _ & v' & rest & _ & _ & _ & _ & ->).
+    cbn [tl hd_error]. rewrite b32_from_base32_eq.
+    destruct (from_base32 5 8 _) as [conv|e''] eqn:F; cbn [bind Ok of_option].
+    + destruct (_ || _); [intros X; inversion X; auto|]. destruct (segwit_ver_max <? v'); [intros X; inversion X; auto|].
+      destruct (_ && _); [intros X; inversion X; auto|discriminate].
+    + intros X; inversion X; subst. left. eapply from_base32_err; eauto.
+  - intros X; inversion X; subst. unfold segwit_decode_raw, bech32_decode_base in R.
+    eapply decode_base_err; [apply b32_cklen_pos| |exact R]. intros h d Hd. apply segwit_verify_total. assumption.
+Qed.
+
+Lemma segwit_encode_eq hrp v syms :
+  encode_base bech32_charset segwit_sep segwit_compute hrp (v :: syms) =
+  (chars <- mapM (char_at bech32_charset) ((v :: syms) ++ b32_compute_checksum (segwit_const v) hrp (v :: syms)) ;;
+   Ok (hrp ++ [segwit_sep] ++ chars)).
+Proof. reflexivity. Qed.
+
+Theorem segwit_dec_then_enc hrp s v prog :
+  segwit_decode hrp s = Ok (v, prog) -> segwit_encode hrp v prog = Ok (py_lower s).
+Proof.
+  intros H. apply segwit_decode_ok_iff in H. destruct H as (M & Hh & rest & El & Hs & Hl & V & F & Hp).
+  destruct (split_last segwit_cklen rest Hl) as [Sp Lc].
+  set (d := drop_last segwit_cklen rest) in *. set (cs := take_last segwit_cklen rest) in *.
+  assert (Hs' : small32 ((v :: d) ++ cs)) by (cbn [app]; rewrite <- Sp; exact Hs).
+  apply small32_app in Hs'. destruct Hs' as [Hd Hc].
+  apply to_from_base32 in F. destruct F as (Hpb & _ & T).
+  assert (C : cs = b32_compute_checksum (segwit_const v) hrp (v :: d)).
+  { apply b32_checksum_unique; auto; [apply segwit_const_small|apply hrp_ok33_chars; assumption|].
+    cbn [app]. rewrite <- Sp. exact V. }
+  unfold segwit_encode. rewrite b32_to_base32_eq, T. cbn [bind Ok]. rewrite segwit_encode_eq, <- C.
+  rewrite (mapM_char_at bech32_charset) by (apply Forall_app; split; assumption).
+  cbn [bind Ok]. rewrite El. cbn [app]. rewrite <- Sp. reflexivity.
+Qed.
+
+Theorem segwit_dec_enc hrp v prog : hrp_enc_ok hrp -> bytes_ok prog -> segwit_prog_ok v prog ->
+  exists s, segwit_encode hrp v prog = Ok s /\ segwit_decode hrp s = Ok (v, prog).
+Proof.
+  intros Hh Hd Hp.
+  assert (Hv : v < 32).
+  { destruct Hp as (_ & Hp & _). destruct segwit_consts as (_ & _ & _ & E & _). rewrite E in Hp. lia. } destruct (to_base32_total prog Hd) as (syms & T & Hs).
+  set (cs := b32_compute_checksum (segwit_const v) hrp (v :: syms)).
+  assert (Hvs : small32 (v :: syms)) by (constructor; assumption).
+  assert (Hall : small32 ((v :: syms) ++ cs)) by (apply Forall_app; split; [assumption|apply b32_compute_small]).
+  exists (hrp ++ segwit_sep :: map bsym ((v :: syms) ++ cs)). split.
+  - unfold segwit_encode. rewrite b32_to_base32_eq, T. cbn [bind Ok]. rewrite segwit_encode_eq. fold cs.
+    rewrite (mapM_char_at bech32_charset) by assumption. reflexivity.
+  - pose proof (encoded_stable hrp segwit_sep ((v :: syms) ++ cs) Hh (or_intror (or_introl eq_refl)) Hall) as St.
+    assert (Lc : length cs = segwit_cklen) by apply b32_compute_length.
+    apply segwit_decode_ok_iff. split; [apply not_mixed_stable; assumption|].
+    split; [apply hrp_enc_ok_33; assumption|]. exists (syms ++ cs). cbn [app] in *.
+    split; [apply py_lower_stable; assumption|]. split; [assumption|]. split; [rewrite app_length; lia|].
+    split; [apply (b32_verify_compute (segwit_const v) (segwit_const_small v) hrp (v :: syms));
+            [apply hrp_ok33_chars, hrp_enc_ok_33; assumption|assumption]|].
+    rewrite <- Lc, drop_last_app. split; [apply from_to_base32; assumption|assumption].
+Qed.
+
+(* ------------------------------------------------------------------ CashAddr *)
+Lemma int_to_be_auto_byte b : b < 256 -> int_to_be_auto b = [b].
+Proof.
+  intros H. assert (S : forallb (fun v => list_eqb (int_to_be_auto v) [v]) (map N.of_nat (seq 0 256)) = true)
+    by (vm_compute; reflexivity).
+  rewrite forallb_forall in S. apply list_eqb_spec. apply S. apply in_map_iff. exists (N.to_nat b).
+  split; [apply Nnat.N2Nat.id|]. apply in_seq. lia.
+Qed.
+
+Lemma cash_raw_ok_iff s hrp data :
+  cash_decode_raw s = Ok (hrp, data) <->
+  is_string_mixed s = false /\ hrp_ok33 hrp /\
+  exists syms, py_lower s = hrp ++ cash_sep :: map bsym syms /\ small32 syms /\
+    (cash_cklen + 1 <= length syms)%nat /\ cash_verify_checksum hrp syms = true /\
+    data = drop_last cash_cklen syms.
+Proof.
+  unfold cash_decode_raw, bech32_decode_base.
+  rewrite (decode_base_ok_iff bech32_charset _ _ cash_sep cash_cklen _ charset_nodup
+             (proj1 (proj2 (sep_stable cash_sep (or_intror (or_intror (or_introl eq_refl)))))) cash_cklen_pos).
+  split; intros (M & Hh & syms & El & Hs & Hl & V & Hd); (split; [exact M|]); (split; [exact Hh|]);
+    exists syms; repeat split; auto.
+  - inversion V. reflexivity.
+  - rewrite V. reflexivity.
+Qed.
+
+Theorem cash_decode_ok_iff hrp s nv data :
+  cash_decode hrp s = Ok (nv, data) <->
+  is_string_mixed s = false /\ hrp_ok33 hrp /\
+  exists syms b, py_lower s = hrp ++ cash_sep :: map bsym syms /\ small32 syms /\
+    (cash_cklen + 1 <= length syms)%nat /\ cash_verify_checksum hrp syms = true /\
+    from_base32 5 8 (drop_last cash_cklen syms) = Ok (b :: data) /\ nv = [b].
+Proof.
+  unfold cash_decode. split.
+  - destruct (cash_decode_raw s) as [[h d]|] eqn:R; cbn [bind Ok fst snd]; [|discriminate].
+    destruct (list_eqb hrp h) eqn:E; cbn [negb]; [|discriminate]. apply list_eqb_spec in E. subst h.
+    apply cash_raw_ok_iff in R. destruct R as (M & Hh & syms & El & Hs & Hl & V & ->).
+    rewrite b32_from_base32_eq.
+    destruct (from_base32 5 8 (drop_last cash_cklen syms)) as [conv|] eqn:F; cbn [bind Ok]; [|discriminate].
+    destruct conv as [|b rest]; [discriminate|]. intros X. inversion X; subst.
+    split; [exact M|]. split; [exact Hh|]. exists syms, b. repeat split; auto.
+    apply int_to_be_auto_byte. apply from_base32_spec in F. destruct F as (_ & Hb & _). inversion Hb; assumption.
+  - intros (M & Hh & syms & b & El & Hs & Hl & V & F & ->).
+    assert (R : cash_decode_raw s = Ok (hrp, drop_last cash_cklen syms)).
+    { apply cash_raw_ok_iff. split; [exact M|]. split; [exact Hh|]. exists syms. auto. }
+    rewrite R. cbn [bind Ok fst snd]. rewrite list_eqb_refl. cbn [negb]. rewrite b32_from_base32_eq, F. cbn [bind Ok].
+    rewrite int_to_be_auto_byte; [reflexivity|].
+    apply from_base32_spec in F. destruct F as (_ & Hb & _). inversion Hb; assumption.
+Qed.
+
+Theorem cash_decode_err hrp s e :
+  cash_decode hrp s = Err e -> e = ValueError \/ e = LibError Bech32ChecksumError.
+Proof.
+  unfold cash_decode. destruct (cash_decode_raw s) as [[h d]|e'] eqn:R; cbn [bind Ok fst snd].
+  - destruct (list_eqb hrp h); cbn [negb]; [|intros X; inversion X; auto].
+    apply cash_raw_ok_iff in R. destruct R as (_ & _ & syms & _ & _ & Hl & _ & ->).
+    rewrite b32_from_base32_eq.
+    destruct (from_base32 5 8 _) as [conv|e''] eqn:F; cbn [bind Ok].
+    + destruct conv as [|b rest]; [|discriminate]. exfalso.
+      apply from_base32_nonempty in F; [congruence|]. intro Z. apply (f_equal (@length N)) in Z.
+      rewrite drop_last_length in Z. cbn [length] in Z. lia.
+    + intros X; inversion X; subst. left. eapply from_base32_err; eauto.
+  - intros X; inversion X; subst. unfold cash_decode_raw, bech32_decode_base in R.
+    eapply decode_base_err; [apply cash_cklen_pos| |exact R]. intros h d _. eexists; reflexivity.
+Qed.
+
+Theorem cash_dec_then_enc hrp s nv data :
+  cash_decode hrp s = Ok (nv, data) -> cash_encode hrp nv data = Ok (py_lower s).
+Proof.
+  intros H. apply cash_decode_ok_iff in H. destruct H as (M & Hh & syms & b & El & Hs & Hl & V & F & ->).
+  destruct (split_last cash_cklen syms ltac:(lia)) as [Sp Lc].
+  set (d := drop_last cash_cklen syms) in *. set (cs := take_last cash_cklen syms) in *.
+  rewrite Sp in Hs, V. apply small32_app in Hs. destruct Hs as [Hd Hc].
+  apply to_from_base32 in F. destruct F as (Hp & _ & T).
+  assert (C : cs = cash_compute_checksum hrp d) by (apply cash_checksum_unique; auto).
+  unfold cash_encode. cbn [app]. rewrite b32_to_base32_eq, T. cbn [bind Ok].
+  unfold encode_base. cbn [bind Ok]. rewrite <- C.
+  rewrite (mapM_char_at bech32_charset) by (apply Forall_app; split; assumption).
+  cbn [bind Ok]. rewrite El, Sp. reflexivity.
+Qed.
+
+Theorem cash_dec_enc hrp b data : hrp_enc_ok hrp -> b < 256 -> bytes_ok data ->
+  exists s, cash_encode hrp [b] data = Ok s /\ cash_decode hrp s = Ok ([b], data).
+Proof.
+  intros Hh Hb Hd. assert (Hbd : bytes_ok (b :: data)) by (constructor; assumption).
+  destruct (to_base32_total (b :: data) Hbd) as (syms & T & Hs).
+  set (cs := cash_compute_checksum hrp syms).
+  assert (Hall : small32 (syms ++ cs)) by (apply Forall_app; split; [assumption|apply cash_compute_small]).
+  exists (hrp ++ cash_sep :: map bsym (syms ++ cs)). split.
+  - unfold cash_encode. cbn [app]. rewrite b32_to_base32_eq, T. cbn [bind Ok]. unfold encode_base. cbn [bind Ok].
+    fold cs. rewrite (mapM_char_at bech32_charset) by assumption. reflexivity.
+  - pose proof (encoded_stable hrp cash_sep (syms ++ cs) Hh (or_intror (or_intror (or_introl eq_refl))) Hall) as St.
+    assert (Lc : length cs = cash_cklen) by apply cash_compute_length.
+    apply cash_decode_ok_iff. split; [apply not_mixed_stable; assumption|].
+    split; [apply hrp_enc_ok_33; assumption|]. exists (syms ++ cs), b.
+    split; [apply py_lower_stable; assumption|]. split; [assumption|]. split.
+    + rewrite app_length, Lc. pose proof (to_base32_nonempty _ _ T ltac:(discriminate)). destruct syms; [congruence|cbn [length]; lia].
+    + split; [apply cash_verify_compute; assumption|]. split; [|reflexivity].
+      rewrite <- Lc, drop_last_app. apply from_to_base32; assumption.
+Qed.
+
+(* ------------------------------------------------------------------ shared consequences *)
+(* every character of an accepted string lower-cases into printable ASCII; hence (sweep over the whole
+   code space, Lemmas/Bech32Str.v) it is ASCII itself or U+212A KELVIN SIGN *)
+Lemma accepted_chars_ascii sep cklen verify s hrp data : In sep [bech32_sep; segwit_sep; cash_sep] ->
+  (1 <= cklen)%nat -> bech32_decode_base sep cklen verify s = Ok (hrp, data) ->
+  Forall (fun c => c < 128 \/ c = kelvin_sign) s.
+Proof.
+  intros Hsep Hck H. apply py_lower_ascii.
+  apply (decode_base_chars bech32_charset _ _ sep cklen verify charset_nodup (proj1 (proj2 (sep_stable sep Hsep))) Hck) in H.
+  eapply Forall_impl; [|exact H]. intros x [Hx|[Hx|Hx]].
+  - destruct hrp_range as [_ E]. rewrite E in Hx. lia.
+  - subst x. apply sep_stable. assumption.
+  - pose proof charset_ascii as A. rewrite Forall_forall in A. auto.
+Qed.
+
+Theorem bech32_accepted_chars hrp s p : bech32_decode hrp s = Ok p -> Forall (fun c => c < 128 \/ c = kelvin_sign) s.
+Proof.
+  unfold bech32_decode. destruct (bech32_decode_raw s) as [[h d]|] eqn:R; [|discriminate]. intros _.
+  eapply (accepted_chars_ascii bech32_sep); [left; reflexivity|apply b32_cklen_pos|exact R].
+Qed.
+
+Theorem segwit_accepted_chars hrp s p : segwit_decode hrp s = Ok p -> Forall (fun c => c < 128 \/ c = kelvin_sign) s.
+Proof.
+  unfold segwit_decode. destruct (segwit_decode_raw s) as [[h d]|] eqn:R; [|discriminate]. intros _.
+  eapply (accepted_chars_ascii segwit_sep); [right; left; reflexivity|apply b32_cklen_pos|exact R].
+Qed.
+
+Theorem cash_accepted_chars hrp s p : cash_decode hrp s = Ok p -> Forall (fun c => c < 128 \/ c = kelvin_sign) s.
+Proof.
+  unfold cash_decode. destruct (cash_decode_raw s) as [[h d]|] eqn:R; [|discriminate]. intros _.
+  eapply (accepted_chars_ascii cash_sep); [right; right; left; reflexivity|apply cash_cklen_pos|exact R].
+Qed.
+
+(* the expected HRP is compared with the string's: two different expected HRPs never both accept *)
+Theorem bech32_hrp_unique h1 h2 s p1 p2 : bech32_decode h1 s = Ok p1 -> bech32_decode h2 s = Ok p2 -> h1 = h2.
+Proof.
+  unfold bech32_decode. destruct (bech32_decode_raw s) as [[h d]|]; cbn [bind Ok fst snd]; [|discriminate].
+  destruct (list_eqb h1 h) eqn:E1; [|discriminate]. destruct (list_eqb h2 h) eqn:E2; [|discriminate].
+  apply list_eqb_spec in E1, E2. congruence.
+Qed.
+Theorem segwit_hrp_unique h1 h2 s p1 p2 : segwit_decode h1 s = Ok p1 -> segwit_decode h2 s = Ok p2 -> h1 = h2.
+Proof.
+  unfold segwit_decode. destruct (segwit_decode_raw s) as [[h d]|]; cbn [bind Ok fst snd]; [|discriminate].
+  destruct (list_eqb h1 h) eqn:E1; [|discriminate]. destruct (list_eqb h2 h) eqn:E2; [|discriminate].
+  apply list_eqb_spec in E1, E2. congruence.
+Qed.
+Theorem cash_hrp_unique h1 h2 s p1 p2 : cash_decode h1 s = Ok p1 -> cash_decode h2 s = Ok p2 -> h1 = h2.
+Proof.
+  unfold cash_decode. destruct (cash_decode_raw s) as [[h d]|]; cbn [bind Ok fst snd]; [|discriminate].
+  destruct (list_eqb h1 h) eqn:E1; [|discriminate]. destruct (list_eqb h2 h) eqn:E2; [|discriminate].
+  apply list_eqb_spec in E1, E2. congruence.
+Qed.
